@@ -10,7 +10,7 @@ import numpy as np
 
 from . import gen, recgen, session
 
-CALLS = ["prior-sample", "prior-sample-linear", "rejection-obj-mem", "rejection-obj-cache", "rejection-file", "rejection-int",
+CALLS = ["read-random-batch", "prior-sample", "prior-sample-linear", "rejection-obj-mem", "rejection-obj-cache", "rejection-file", "rejection-int",
          "rejection-int-mem", "iterative-mem", "iterative-cache", "rejection-cache-random"]
 
 
@@ -65,7 +65,17 @@ def run_scenario(seed_tuple, tmpdir, pool_kind=0, api_seed_shift=0, pool=None, r
         kind = c["kind"]
         before = global_state_digest()
         try:
-            if kind == "prior-sample":
+            if kind == "read-random-batch":
+                from thejoker import JokerSamples
+                from thejoker.utils import read_batch
+                arr = read_batch(path, ["P", "e", "omega"], min(c["size"], pb.N), units={"P": gen.U("yr")},
+                                 rng=np.random.default_rng(api_seed + 3000 + k))
+                r = JokerSamples()
+                import astropy.units as u_
+                r["P"] = arr[:, 0] * u_.yr
+                r["e"] = arr[:, 1]
+                r["omega"] = arr[:, 2] * u_.rad
+            elif kind == "prior-sample":
                 r = pb.prior.sample(size=c["size"], rng=np.random.default_rng(api_seed + 1000 + k), return_logprobs=True)
             elif kind == "prior-sample-linear":
                 r = pb.prior.sample(size=c["size"], generate_linear=True, rng=np.random.default_rng(api_seed + 2000 + k))
